@@ -527,7 +527,9 @@ func absurdFamilies(w *world) []*Family {
 			for _, sh := range heights {
 				for _, chn := range hashes {
 					for _, shn := range hashes {
-						emit(func() Case { return one(fmt.Sprintf("msg/03/absurd/cur=%d:%s/sta=%d:%s", ch, chn, sh, shn), 0x03, enc(&network.LatestStatus{CurHeight: ch, CurHash: hv(chn), StaHeight: sh, StaHash: hv(shn)}), playOpt{}) })
+						emit(func() Case {
+							return one(fmt.Sprintf("msg/03/absurd/cur=%d:%s/sta=%d:%s", ch, chn, sh, shn), 0x03, enc(&network.LatestStatus{CurHeight: ch, CurHash: hv(chn), StaHeight: sh, StaHash: hv(shn)}), playOpt{})
+						})
 					}
 				}
 			}
@@ -536,7 +538,9 @@ func absurdFamilies(w *world) []*Family {
 	add("05/absurd", 1, func(th bool, emit func(func() Case)) {
 		for _, h := range heights {
 			for _, hn := range hashes {
-				emit(func() Case { return one(fmt.Sprintf("msg/05/absurd/%d:%s", h, hn), 0x05, enc(&network.BlockHashData{Height: h, Hash: hv(hn)}), playOpt{}) })
+				emit(func() Case {
+					return one(fmt.Sprintf("msg/05/absurd/%d:%s", h, hn), 0x05, enc(&network.BlockHashData{Height: h, Hash: hv(hn)}), playOpt{})
+				})
 			}
 		}
 	})
@@ -546,7 +550,9 @@ func absurdFamilies(w *world) []*Family {
 		add(fmt.Sprintf("%02x/absurd", code), 2, func(th bool, emit func(func() Case)) {
 			for _, from := range ranges {
 				for _, to := range ranges {
-					emit(func() Case { return one(fmt.Sprintf("msg/%02x/absurd/from=%d/to=%d", code, from, to), code, enc(&network.GetBlocksData{From: from, To: to}), playOpt{}) })
+					emit(func() Case {
+						return one(fmt.Sprintf("msg/%02x/absurd/from=%d/to=%d", code, from, to), code, enc(&network.GetBlocksData{From: from, To: to}), playOpt{})
+					})
 				}
 			}
 		})
@@ -554,7 +560,9 @@ func absurdFamilies(w *world) []*Family {
 	add("0a/absurd", 1, func(th bool, emit func(func() Case)) {
 		for _, h := range heights {
 			for _, hn := range hashes {
-				emit(func() Case { return one(fmt.Sprintf("msg/0a/absurd/%d:%s", h, hn), 0x0a, enc(&network.GetConfirmInfo{Height: h, Hash: hv(hn)}), playOpt{}) })
+				emit(func() Case {
+					return one(fmt.Sprintf("msg/0a/absurd/%d:%s", h, hn), 0x0a, enc(&network.GetConfirmInfo{Height: h, Hash: hv(hn)}), playOpt{})
+				})
 			}
 		}
 	})
@@ -588,14 +596,18 @@ func absurdFamilies(w *world) []*Family {
 				}
 				sort.Strings(names)
 				for _, sn := range names {
-					emit(func() Case { return one(fmt.Sprintf("msg/09/absurd/%s/height=%d/sig=%s", hn, h, sn), 0x09, enc(&network.BlockConfirmData{Hash: hv(hn), Height: h, SignInfo: ss[sn]}), playOpt{}) })
+					emit(func() Case {
+						return one(fmt.Sprintf("msg/09/absurd/%s/height=%d/sig=%s", hn, h, sn), 0x09, enc(&network.BlockConfirmData{Hash: hv(hn), Height: h, SignInfo: ss[sn]}), playOpt{})
+					})
 				}
 			}
 		}
 		// signatures of the wrong length (the wire type is a 65 byte array)
 		for _, n := range []int{0, 1, 64, 66, 130, 100000} {
 			body := append(append(append([]byte{}, enc(w.hash("a1"))...), enc(uint32(2))...), enc(bytes.Repeat([]byte{1}, n))...)
-			emit(func() Case { return one(fmt.Sprintf("msg/09/absurd/sig-length=%d", n), 0x09, append(listHeader(len(body)), body...), playOpt{}) })
+			emit(func() Case {
+				return one(fmt.Sprintf("msg/09/absurd/sig-length=%d", n), 0x09, append(listHeader(len(body)), body...), playOpt{})
+			})
 		}
 	})
 	add("0b/absurd", 2, func(th bool, emit func(func() Case)) {
@@ -626,7 +638,9 @@ func absurdFamilies(w *world) []*Family {
 				}
 				sort.Strings(names)
 				for _, pn := range names {
-					emit(func() Case { return one(fmt.Sprintf("msg/0b/absurd/%s/height=%d/pack=%s", hn, h, pn), 0x0b, enc(&network.BlockConfirms{Height: h, Hash: hv(hn), Pack: packs[pn]}), playOpt{}) })
+					emit(func() Case {
+						return one(fmt.Sprintf("msg/0b/absurd/%s/height=%d/pack=%s", hn, h, pn), 0x0b, enc(&network.BlockConfirms{Height: h, Hash: hv(hn), Pack: packs[pn]}), playOpt{})
+					})
 				}
 			}
 		}
@@ -681,8 +695,12 @@ func absurdFamilies(w *world) []*Family {
 			emit(func() Case { return one("msg/0d/absurd/"+p.name, 0x0d, p.b, playOpt{}) })
 		}
 		for _, seq := range []uint64{0, 1, 1 << 32, 1<<64 - 1} {
-			emit(func() Case { return one(fmt.Sprintf("msg/0c/absurd/seq=%d", seq), 0x0c, enc(&network.DiscoverReqData{Sequence: uint(seq)}), playOpt{}) })
-			emit(func() Case { return one(fmt.Sprintf("msg/0d/absurd/seq=%d", seq), 0x0d, enc(&network.DiscoverResData{Sequence: uint(seq), Nodes: []string{good}}), playOpt{}) })
+			emit(func() Case {
+				return one(fmt.Sprintf("msg/0c/absurd/seq=%d", seq), 0x0c, enc(&network.DiscoverReqData{Sequence: uint(seq)}), playOpt{})
+			})
+			emit(func() Case {
+				return one(fmt.Sprintf("msg/0d/absurd/seq=%d", seq), 0x0d, enc(&network.DiscoverResData{Sequence: uint(seq), Nodes: []string{good}}), playOpt{})
+			})
 		}
 	})
 	// transactions: into the pool (TxsMsg), executed by a validator (a byzantine deputy's block that
@@ -690,39 +708,51 @@ func absurdFamilies(w *world) []*Family {
 	add("06/absurd", 3, func(th bool, emit func(func() Case)) {
 		for _, t := range absurdTxs(w, th) {
 			t := t
-			emit(func() Case { return Case{Name: "msg/06/absurd/" + t.name + "/pool", Run: func(m *meter) string {
-				return playMsgs(m, []wire{{0x06, enc([]*rtx{t.r})}}, playOpt{})
-			}} })
-			emit(func() Case { return Case{Name: "msg/06/absurd/" + t.name + "/in-block", Run: func(m *meter) string {
-				tx, err := t.r.tx()
-				if err != nil {
-					return "06/not-decodable"
-				}
-				b := byzBlock(w, func(b *types.Block) { b.Txs = types.Transactions{tx} }, true, true)
-				p, ok := encBlocks(b)
-				if !ok {
-					return "06/not-encodable"
-				}
-				return playMsgs(m, []wire{{0x08, p}}, playOpt{})
-			}} })
+			emit(func() Case {
+				return Case{Name: "msg/06/absurd/" + t.name + "/pool", Run: func(m *meter) string {
+					return playMsgs(m, []wire{{0x06, enc([]*rtx{t.r})}}, playOpt{})
+				}}
+			})
+			emit(func() Case {
+				return Case{Name: "msg/06/absurd/" + t.name + "/in-block", Run: func(m *meter) string {
+					tx, err := t.r.tx()
+					if err != nil {
+						return "06/not-decodable"
+					}
+					b := byzBlock(w, func(b *types.Block) { b.Txs = types.Transactions{tx} }, true, true)
+					p, ok := encBlocks(b)
+					if !ok {
+						return "06/not-encodable"
+					}
+					return playMsgs(m, []wire{{0x08, p}}, playOpt{})
+				}}
+			})
 		}
 		// lists
-		for _, n := range []int{0, 2, 1000} {
+		sizes := []int{0, 2, 1000}
+		if th {
+			sizes = append(sizes, 10000)
+		}
+		for _, n := range sizes {
 			n := n
-			emit(func() Case { return Case{Name: fmt.Sprintf("msg/06/absurd/list/same-x%d", n), Run: func(m *meter) string {
-				var l types.Transactions
-				for i := 0; i < n; i++ {
-					l = append(l, w.txNew)
-				}
-				return playMsgs(m, []wire{{0x06, enc(l)}}, playOpt{})
-			}} })
-			emit(func() Case { return Case{Name: fmt.Sprintf("msg/06/absurd/list/distinct-x%d", n), Run: func(m *meter) string {
-				var l types.Transactions
-				for i := 0; i < n; i++ {
-					l = append(l, node.Transfer(node.User(1), node.User(2).Addr, big.NewInt(int64(i+1)), w.exp+100))
-				}
-				return playMsgs(m, []wire{{0x06, enc(l)}}, playOpt{})
-			}} })
+			emit(func() Case {
+				return Case{Name: fmt.Sprintf("msg/06/absurd/list/same-x%d", n), Run: func(m *meter) string {
+					var l types.Transactions
+					for i := 0; i < n; i++ {
+						l = append(l, w.txNew)
+					}
+					return playMsgs(m, []wire{{0x06, enc(l)}}, playOpt{items: n})
+				}}
+			})
+			emit(func() Case {
+				return Case{Name: fmt.Sprintf("msg/06/absurd/list/distinct-x%d", n), Run: func(m *meter) string {
+					var l types.Transactions
+					for i := 0; i < n; i++ {
+						l = append(l, node.Transfer(node.User(1), node.User(2).Addr, big.NewInt(int64(i+1)), w.exp+100))
+					}
+					return playMsgs(m, []wire{{0x06, enc(l)}}, playOpt{items: n})
+				}}
+			})
 		}
 	})
 	add("06/mined", 60, func(th bool, emit func(func() Case)) {
@@ -740,37 +770,45 @@ func absurdFamilies(w *world) []*Family {
 				}
 				seen[cls] = true
 			}
-			emit(func() Case { return Case{Name: "msg/06/mined/" + t.name, Run: func(m *meter) string {
-				return playMsgs(m, []wire{{0x06, enc([]*rtx{t.r})}}, playOpt{mine: true})
-			}} })
+			emit(func() Case {
+				return Case{Name: "msg/06/mined/" + t.name, Run: func(m *meter) string {
+					return playMsgs(m, []wire{{0x06, enc([]*rtx{t.r})}}, playOpt{mine: true})
+				}}
+			})
 		}
 	})
 	add("08/absurd", 4, func(th bool, emit func(func() Case)) {
 		for _, nb := range absurdBlocks(w, th) {
 			nb := nb
-			emit(func() Case { return Case{Name: "msg/08/absurd/" + nb.name, Run: func(m *meter) string {
-				b := byzBlock(w, nb.mod, nb.fix, nb.sign)
-				p, ok := encBlocks(b)
-				if !ok {
-					return "08/not-encodable"
-				}
-				return playMsgs(m, []wire{{0x08, p}}, playOpt{})
-			}} })
+			emit(func() Case {
+				return Case{Name: "msg/08/absurd/" + nb.name, Run: func(m *meter) string {
+					b := byzBlock(w, nb.mod, nb.fix, nb.sign)
+					p, ok := encBlocks(b)
+					if !ok {
+						return "08/not-encodable"
+					}
+					return playMsgs(m, []wire{{0x08, p}}, playOpt{})
+				}}
+			})
 		}
 		// list shapes
 		for _, n := range []int{0, 2, 100} {
 			n := n
-			emit(func() Case { return Case{Name: fmt.Sprintf("msg/08/absurd/list/C-x%d", n), Run: func(m *meter) string {
-				var l types.Blocks
-				for i := 0; i < n; i++ {
-					l = append(l, w.blocks["C"])
-				}
-				return playMsgs(m, []wire{{0x08, enc(l)}}, playOpt{})
-			}} })
+			emit(func() Case {
+				return Case{Name: fmt.Sprintf("msg/08/absurd/list/C-x%d", n), Run: func(m *meter) string {
+					var l types.Blocks
+					for i := 0; i < n; i++ {
+						l = append(l, w.blocks["C"])
+					}
+					return playMsgs(m, []wire{{0x08, enc(l)}}, playOpt{})
+				}}
+			})
 		}
-		emit(func() Case { return Case{Name: "msg/08/absurd/list/all-fixture-blocks-reversed", Run: func(m *meter) string {
-			return playMsgs(m, []wire{{0x08, enc(types.Blocks{w.blocks["O2"], w.blocks["O"], w.blocks["C"], w.blocks["b1"], w.blocks["a1"], w.blocks["f"], w.blocks["g"]})}}, playOpt{waitQueue: true})
-		}} })
+		emit(func() Case {
+			return Case{Name: "msg/08/absurd/list/all-fixture-blocks-reversed", Run: func(m *meter) string {
+				return playMsgs(m, []wire{{0x08, enc(types.Blocks{w.blocks["O2"], w.blocks["O"], w.blocks["C"], w.blocks["b1"], w.blocks["a1"], w.blocks["f"], w.blocks["g"]})}}, playOpt{waitQueue: true})
+			}}
+		})
 	})
 	return fams
 }
